@@ -10,6 +10,7 @@ The theorems are about `Reach` / `Exec` of C31/Model.lean: every state reachable
 actions of `With` and `Global`, for any number of goroutines each performing any sequence of operations.
 -/
 import ZoektModel.C31.Trace
+import ZoektModel.Generated.C31LockSites
 namespace ZoektModel.C31
 
 /-- the invariant (readers = goroutines between RLock and RUnlock; at most one goroutine between Lock and Unlock and then no
@@ -152,6 +153,27 @@ theorem all_traces_ok (n : Nat) (tr : List Ev) (s : State) (h : Exec (init n) tr
     exact this n
   rw [e] at hrun
   simp [traceOK, hrun]
+
+/-! ### the call sites (translator table `C31LockSites`, regenerated from the working tree on every run)
+
+The theorems above are about the `f` passed to `With(name, f)` and `Global(f)`.  They speak about *operations* — index
+jobs, cleanup, merge, vacuum, data deletion — only if every such operation runs inside the `f` of the right method, and
+if all index jobs of one repository use the same key.  Both facts are read off the source. -/
+
+/-- every `muIndexDir.With` call site keys by the same expression (the queue worker and the forced re-index are both
+    there): two index jobs for one repository always meet on one key -/
+theorem with_sites_share_one_key :
+    (Gen.c31WithKeys.map (·.2)).eraseDups.length = 1 ∧
+    (Gen.c31WithKeys.map (·.1)).contains "processQueue" = true ∧ (Gen.c31WithKeys.map (·.1)).contains "forceIndex" = true := by
+  decide
+
+/-- every call of an operation on the index directory is lexically inside the function passed to the right lock method:
+    index jobs under `With`, cleanup / vacuum / merge / explode / purge (data deletion) under `Global`, nothing outside -/
+theorem dir_ops_run_under_their_lock :
+    Gen.c31DirOps.all (fun r => r.2.2 == (if r.2.1 == "index" then "With" else "Global")) = true ∧
+    ["cleanup", "removeTombstones", "purgeTenantShards", "explodeTenantCompoundShards", "loadCandidates", "mergeCmd", "index"].all
+      (fun op => (Gen.c31DirOps.map (·.2.1)).contains op) = true := by
+  decide
 
 /-! non-vacuity: a concrete execution in which goroutine 1 is skipped while goroutine 0 runs `f` for the same
     repository, and a global operation then runs alone -/
